@@ -13,7 +13,7 @@ Definition unfinished_remainder (s : state) (d : Z) : Z := sum_unfinished s (s_g
 Lemma sum_unfinished_le : forall s st d, Forall gauge_ok st -> sum_unfinished s st d <= sum_rem st d.
 Proof.
   induction st as [|g r IH]; intros d H; cbn [sum_unfinished sum_rem]; [lia|]. inversion H; subst.
-  specialize (IH d H3). destruct H2 as (_ & _ & L). specialize (L d). unfold rem.
+  specialize (IH d H3). destruct H2 as (_ & _ & L & _). specialize (L d). unfold rem.
   destruct (unfinished s (g_id g)); lia.
 Qed.
 
